@@ -91,6 +91,8 @@ def run_case(case):
         cls.append('all_zero_weights')
     if not cfg.get('adjust', True):
         cls.append('raw_prices')
+    if w and abs(sum(w.values()) - 1.0) < 1e-4 and sum(w.values()) != 1.0:
+        cls.append('weights_sum_near_one')
     if any(abs(f[2]) == 1 for f in exp):
         cls.append('fill_qty_1')
     if cal.date3(cfg['start']).weekday() >= 5:
@@ -119,6 +121,12 @@ def cases(draw):
            'adjust': draw(st.sampled_from([True, True, False]))}
     cfg.update(sched)
     cfg.update(siz)
+    if siz['long_only'] and len(assets) >= 2 and draw(st.sampled_from([False] * 5 + [True])):
+        # weights summing to almost - not exactly - one, on a large account: they are still normalised
+        n_ = len(assets)
+        cfg['alpha']['weights'] = {a: float('%.6f' % (1.0 / n_ - draw(st.sampled_from([1e-6, 2e-6])))) for a in assets}
+        cfg['cash'] = 5e7
+        cfg['universe']['assets'] = list(assets)
     return {'cfg': cfg, 'market': mk}
 
 
